@@ -10,6 +10,7 @@ import Rpki.Proofs.ResTextSets
 import Rpki.Model.ProvMsg
 import Rpki.Proofs.ChainPrefix
 import Rpki.Proofs.ChainOps
+import Rpki.Model.ResSetOps
 namespace Rpki.C03
 open Rpki.Chain Rpki.Consts
 
@@ -283,6 +284,131 @@ theorem limit_apply_spec (l : ProvMsg.Limit) (s : ProvMsg.ResSet)
           · intro e; subst e; exact ⟨rfl, rfl, rfl⟩
           · rintro ⟨rfl, rfl, rfl⟩; rfl
 
+
+/-! ## `ResourceSet`: the three chains together (`Model/ResSetOps.lean`, tied by the `rset` / `rset-has` ops) -/
+section ResourceSets
+open Rpki.ResSetOps Rpki.ProvMsg
+
+/-- all three chains canonical (IPv4 in the 128-bit space, as the library keeps it) -/
+def SetCanon (s : ResSet) : Prop := Canon M32 s.asn ∧ Canon M128 s.v4 ∧ Canon M128 s.v6
+
+/-- same members in every family -/
+def SetSame (a b : ResSet) : Prop :=
+  (∀ x, mem a.asn x ↔ mem b.asn x) ∧ (∀ x, mem a.v4 x ↔ mem b.v4 x) ∧ (∀ x, mem a.v6 x ↔ mem b.v6 x)
+
+theorem canon_no_members (M : Nat) (c : List Blk) (hc : Canon M c) (h : ∀ x, ¬ mem c x) : c = [] :=
+  canon_unique' M c [] hc (canon_nil M)
+    (fun x => ⟨fun hx => absurd hx (h x), fun hx => absurd hx (mem_nil x)⟩)
+
+/-- **Union / intersection of resource sets** are canonical in every family and denote the union / intersection
+family by family. -/
+theorem resset_union_spec (a b : ResSet) (ha : SetCanon a) (hb : SetCanon b) :
+    SetCanon (ResSetOps.union a b) ∧
+    (∀ x, mem (ResSetOps.union a b).asn x ↔ (mem a.asn x ∨ mem b.asn x)) ∧
+    (∀ x, mem (ResSetOps.union a b).v4 x ↔ (mem a.v4 x ∨ mem b.v4 x)) ∧
+    (∀ x, mem (ResSetOps.union a b).v6 x ↔ (mem a.v6 x ∨ mem b.v6 x)) := by
+  have u1 := union_spec' M32 a.asn b.asn ha.1 hb.1
+  have u2 := union_spec' M128 a.v4 b.v4 ha.2.1 hb.2.1
+  have u3 := union_spec' M128 a.v6 b.v6 ha.2.2 hb.2.2
+  exact ⟨⟨u1.1, u2.1, u3.1⟩, u1.2, u2.2, u3.2⟩
+
+theorem resset_inter_spec (a b : ResSet) (ha : SetCanon a) (hb : SetCanon b) :
+    SetCanon (ResSetOps.inter a b) ∧
+    (∀ x, mem (ResSetOps.inter a b).asn x ↔ (mem a.asn x ∧ mem b.asn x)) ∧
+    (∀ x, mem (ResSetOps.inter a b).v4 x ↔ (mem a.v4 x ∧ mem b.v4 x)) ∧
+    (∀ x, mem (ResSetOps.inter a b).v6 x ↔ (mem a.v6 x ∧ mem b.v6 x)) := by
+  have u1 := inter_spec' M32 a.asn b.asn ha.1 hb.1
+  have u2 := inter_spec' M128 a.v4 b.v4 ha.2.1 hb.2.1
+  have u3 := inter_spec' M128 a.v6 b.v6 ha.2.2 hb.2.2
+  exact ⟨⟨u1.1, u2.1, u3.1⟩, u1.2, u2.2, u3.2⟩
+
+/-- **Difference**: "added" is what the first set has and the second lacks, "removed" the reverse, both canonical. -/
+theorem resset_diff_spec (a b : ResSet) (ha : SetCanon a) (hb : SetCanon b) :
+    SetCanon (ResSetOps.diff a b).1 ∧ SetCanon (ResSetOps.diff a b).2 ∧
+    (∀ x, mem (ResSetOps.diff a b).1.asn x ↔ (mem a.asn x ∧ ¬ mem b.asn x)) ∧
+    (∀ x, mem (ResSetOps.diff a b).1.v4 x ↔ (mem a.v4 x ∧ ¬ mem b.v4 x)) ∧
+    (∀ x, mem (ResSetOps.diff a b).1.v6 x ↔ (mem a.v6 x ∧ ¬ mem b.v6 x)) ∧
+    (∀ x, mem (ResSetOps.diff a b).2.asn x ↔ (mem b.asn x ∧ ¬ mem a.asn x)) ∧
+    (∀ x, mem (ResSetOps.diff a b).2.v4 x ↔ (mem b.v4 x ∧ ¬ mem a.v4 x)) ∧
+    (∀ x, mem (ResSetOps.diff a b).2.v6 x ↔ (mem b.v6 x ∧ ¬ mem a.v6 x)) := by
+  have d1 := difference_spec' M32 a.asn b.asn ha.1 hb.1
+  have d2 := difference_spec' M128 a.v4 b.v4 ha.2.1 hb.2.1
+  have d3 := difference_spec' M128 a.v6 b.v6 ha.2.2 hb.2.2
+  have e1 := difference_spec' M32 b.asn a.asn hb.1 ha.1
+  have e2 := difference_spec' M128 b.v4 a.v4 hb.2.1 ha.2.1
+  have e3 := difference_spec' M128 b.v6 a.v6 hb.2.2 ha.2.2
+  exact ⟨⟨d1.1, d2.1, d3.1⟩, ⟨e1.1, e2.1, e3.1⟩, d1.2, d2.2, d3.2, e1.2, e2.2, e3.2⟩
+
+/-- **No difference means equal**: `ResourceDiff::is_empty` holds exactly when the two sets are the same value. -/
+theorem resset_diff_empty_iff_eq (a b : ResSet) (ha : SetCanon a) (hb : SetCanon b) :
+    diffIsEmpty (ResSetOps.diff a b) = true ↔ a = b := by
+  have key : ∀ (M : Nat) (x y : List Blk), Canon M x → Canon M y →
+      ((difference x y).isEmpty = true ∧ (difference y x).isEmpty = true ↔ x = y) := by
+    intro M x y hx hy
+    have dxy := difference_spec' M x y hx hy
+    have dyx := difference_spec' M y x hy hx
+    constructor
+    · rintro ⟨e1, e2⟩
+      rw [List.isEmpty_iff] at e1 e2
+      apply canon_unique' M x y hx hy
+      intro z
+      constructor
+      · intro hz
+        by_cases hy' : mem y z
+        · exact hy'
+        · have : mem (difference x y) z := (dxy.2 z).2 ⟨hz, hy'⟩
+          rw [e1] at this; obtain ⟨_, hb', _⟩ := this; cases hb'
+      · intro hz
+        by_cases hx' : mem x z
+        · exact hx'
+        · have : mem (difference y x) z := (dyx.2 z).2 ⟨hz, hx'⟩
+          rw [e2] at this; obtain ⟨_, hb', _⟩ := this; cases hb'
+    · rintro rfl
+      have e : difference x x = [] := canon_no_members M _ dxy.1 (fun z hz => ((dxy.2 z).1 hz).2 ((dxy.2 z).1 hz).1)
+      rw [e]; exact ⟨rfl, rfl⟩
+  have k1 := key M32 a.asn b.asn ha.1 hb.1
+  have k2 := key M128 a.v4 b.v4 ha.2.1 hb.2.1
+  have k3 := key M128 a.v6 b.v6 ha.2.2 hb.2.2
+  unfold diffIsEmpty ResSetOps.isEmpty ResSetOps.diff
+  simp only [Bool.and_eq_true]
+  constructor
+  · rintro ⟨⟨⟨p1, p2⟩, p3⟩, ⟨q1, q2⟩, q3⟩
+    have := k1.1 ⟨p1, q1⟩; have := k2.1 ⟨p2, q2⟩; have := k3.1 ⟨p3, q3⟩
+    cases a; cases b; simp_all
+  · rintro rfl
+    exact ⟨⟨⟨(k1.2 rfl).1, (k2.2 rfl).1⟩, (k3.2 rfl).1⟩, ⟨(k1.2 rfl).2, (k2.2 rfl).2⟩, (k3.2 rfl).2⟩
+
+/-- **Containment** of resource sets is inclusion in every family; `contains_asn` is membership. -/
+theorem resset_contains_iff (a b : ResSet) (ha : SetCanon a) (hb : SetCanon b) :
+    ResSetOps.contains a b = true ↔
+      (∀ x, mem b.asn x → mem a.asn x) ∧ (∀ x, mem b.v4 x → mem a.v4 x) ∧ (∀ x, mem b.v6 x → mem a.v6 x) := by
+  unfold ResSetOps.contains
+  rw [Bool.and_eq_true, Bool.and_eq_true, isEncompassed_iff' M32 b.asn a.asn hb.1 ha.1,
+    isEncompassed_iff' M128 b.v4 a.v4 hb.2.1 ha.2.1, isEncompassed_iff' M128 b.v6 a.v6 hb.2.2 ha.2.2]
+  exact ⟨fun ⟨⟨p, q⟩, r⟩ => ⟨p, q, r⟩, fun ⟨p, q, r⟩ => ⟨⟨p, q⟩, r⟩⟩
+
+theorem resset_containsAsn_iff (a : ResSet) (ha : SetCanon a) (x : Nat) (hx : x ≤ M32) :
+    containsAsn a x = true ↔ mem a.asn x := by
+  unfold containsAsn
+  have hc : Canon M32 [⟨x, x⟩] := by
+    refine ⟨?_, List.pairwise_singleton _ _⟩
+    intro b hb; simp only [List.mem_singleton] at hb; subst hb; exact ⟨Nat.le_refl _, hx⟩
+  rw [isEncompassed_iff' M32 _ a.asn hc ha.1]
+  constructor
+  · intro h; exact h x ⟨⟨x, x⟩, by simp, Nat.le_refl _, Nat.le_refl _⟩
+  · rintro h y ⟨b, hb, h1, h2⟩
+    simp only [List.mem_singleton] at hb; subst hb
+    have : y = x := Nat.le_antisymm h2 h1
+    subst this; exact h
+
+/-- a ROA address (a 128-bit range without a family) is reported as contained exactly when one block of the IPv4
+or of the IPv6 chain covers its whole range -/
+theorem resset_containsRoa_iff (a : ResSet) (lo hi : Nat) :
+    containsRoa a lo hi = true ↔ (∃ r ∈ a.v4, r.lo ≤ lo ∧ hi ≤ r.hi) ∨ (∃ r ∈ a.v6, r.lo ≤ lo ∧ hi ≤ r.hi) := by
+  unfold containsRoa
+  simp only [Bool.or_eq_true, List.any_eq_true, Bool.and_eq_true, decide_eq_true_eq]
+
+end ResourceSets
 
 /-! ## Non-vacuity -/
 
